@@ -36,7 +36,7 @@ func wrapsNotFoundD(v ssa.Value, depth int) bool {
 	}
 	f := c.Call.StaticCallee()
 	// a helper of the package that builds the error: every one of its returns wraps it
-	if f != nil && f.Pkg != nil && f.Pkg.Pkg.Path() == twigPath && len(f.Blocks) > 0 && depth < 3 && f.Signature.Results().Len() == 1 {
+	if f != nil && isTwigFn(f) && len(f.Blocks) > 0 && depth < 3 && f.Signature.Results().Len() == 1 {
 		all, n := true, 0
 		instrsOf(f, func(in ssa.Instruction) {
 			if ret, ok := in.(*ssa.Return); ok {
@@ -280,7 +280,7 @@ func checkC15(w *World, r *Report) {
 			return st == 2
 		}
 		storeHelpers[f] = 1
-		if f.Pkg == nil || f.Pkg.Pkg.Path() != twigPath || len(f.Blocks) == 0 {
+		if !isTwigFn(f) || len(f.Blocks) == 0 {
 			return false
 		}
 		has := false
@@ -885,7 +885,7 @@ func checkModTimeSources(w *World, r *Report) {
 			if f.Pkg != nil && f.Pkg.Pkg.Path() == "time" && f.Signature.Recv() != nil && len(cc.Args) > 0 {
 				return derives(cc.Args[0], seen, d+1) // t.Unix(), t.UnixNano(), t.UTC() …
 			}
-			if f.Pkg != nil && f.Pkg.Pkg.Path() == twigPath && len(f.Blocks) > 0 {
+			if isTwigFn(f) && len(f.Blocks) > 0 {
 				okAll, why := true, ""
 				instrsOf(f, func(in ssa.Instruction) {
 					ret, isRet := in.(*ssa.Return)
